@@ -135,17 +135,39 @@ def run_hypothesis(test_body, strategy, *, seed, max_examples, stats, shrink=Tru
         print_blob=False,
     )
     last = {}
+    best = {}
+    budget = float(os.environ.get("VERIF_SHRINK_S", "60"))
+    state = {"deadline": None}
+
+    class _StopShrinking(BaseException):
+        pass
 
     def wrapped(value):
+        # bounded shrinking: once the budget after the first failure is used up the run is cut short
+        # and the smallest failing case seen so far is reported
+        if state["deadline"] is not None and time.time() > state["deadline"]:
+            raise _StopShrinking()
         try:
             test_body(value)
         except Violation as v:
             last["v"] = v
+            try:
+                size = len(jdump(v.case))
+            except Exception:
+                size = 10 ** 9
+            if "v" not in best or size <= best["size"]:
+                best["v"], best["size"] = v, size
+            if state["deadline"] is None:
+                state["deadline"] = time.time() + budget
             raise
 
     test = hypothesis.seed(seed)(st(given(strategy)(wrapped)))
     try:
         test()
+    except _StopShrinking:
+        v = best["v"]
+        stats.fail(v.detail, v.case)
+        stats.notes.append("shrinking stopped after %.0f s (VERIF_SHRINK_S); the reported case may not be minimal" % budget)
     except Violation:
         v = last["v"]
         stats.fail(v.detail, v.case)
